@@ -340,3 +340,38 @@ Proof.
   - assert (t < length is)%nat by (apply nth_error_Some; congruence). lia.
   - intros u Hu. apply Hq. lia.
 Qed.
+
+(* zero when idle, by trace position: cycle 0, and every cycle whose predecessor is not a read strobe
+   inside a readable register *)
+Lemma r_data_zero_trace c is t : wf_cfg c -> (t <= length is)%nat ->
+  (forall t' i, t = S t' -> nth_error is t' = Some i ->
+     i_rstb i = false \/
+     forall r, In r (c_regs c) -> r_rd r = true -> ~ (r_start r <= i_addr i < r_stop r)) ->
+  rdata_at c is t = 0.
+Proof.
+  intros Hwf Hlen Hidle. unfold rdata_at. destruct t as [|t'].
+  - unfold st_at. simpl. apply bus_rdata_init.
+  - destruct (nth_error is t') as [i|] eqn:E; [|apply nth_error_None in E; lia].
+    rewrite (st_at_S c is t' i E). apply bus_rdata_idle; [exact Hwf|].
+    apply (Hidle t' i); auto.
+Qed.
+
+(* the shadow size (hence the sharing limit it was computed from) is unobservable on the read path:
+   two admissible configurations over the same layout return the same data *)
+Lemma read_size_independent c1 c2 is t0 t k r j i0 it : wf_cfg c1 -> wf_cfg c2 ->
+  c_dw c1 = c_dw c2 -> c_regs c1 = c_regs c2 ->
+  nth_error (c_regs c1) k = Some r -> r_rd r = true ->
+  nth_error is t0 = Some i0 -> i_rstb i0 = true -> i_addr i0 = r_start r ->
+  (t0 <= t)%nat ->
+  (forall u, (t0 < u <= t)%nat -> ~ any_first_read c1 is u) ->
+  nth_error is t = Some it -> i_rstb it = true -> i_addr it = r_start r + j -> 0 <= j < reg_len r ->
+  rdata_at c1 is (S t) = rdata_at c2 is (S t).
+Proof.
+  intros Hwf1 Hwf2 Hdw Hregs Hk Hrd Ht0 Hs0 Ha0 Hle Hq Ht Hs Ha Hj.
+  rewrite (read_atomic c1 is t0 t k r j i0 it); auto.
+  rewrite (read_atomic c2 is t0 t k r j i0 it); auto.
+  - rewrite Hdw. reflexivity.
+  - rewrite <- Hregs. exact Hk.
+  - intros u Hu (i & r' & Hn & Hin & Hrest). apply (Hq u Hu).
+    exists i, r'. rewrite Hregs. auto.
+Qed.
